@@ -629,6 +629,11 @@ class DBusObject :
 
     @dbusMethod('org.freedesktop.DBus.Properties', 'GetAll')
     def _dbus_PropertyGetAll(self, interfaceName):
+        if interfaceName and not any(
+            i.name == interfaceName for i in self.getInterfaces()
+        ):
+            raise Exception('Invalid Interface')
+
         return self.getAllProperties(interfaceName)
 
 
